@@ -252,10 +252,13 @@ func (k Keeper) LiquidateBorrows(ctx sdk.Context, offsetCounterId uint64) error 
 	}
 	newBorrowIDs := borrowIDs[start:end]
 	for l := range newBorrowIDs {
-		err := k.LiquidateIndividualBorrow(ctx, newBorrowIDs[l], "", false)
-		if err != nil {
-			return err
-		}
+		borrowID := newBorrowIDs[l]
+		// one borrow is one unit of work, as one vault is in LiquidateVaults: a seizure that fails half way (it marks
+		// the borrow liquidated before it moves the collateral and opens the auction) must leave nothing behind, and
+		// must not keep the sweep from the remaining borrows and from advancing its cursor
+		_ = utils.ApplyFuncIfNoError(ctx, func(ctx sdk.Context) error {
+			return k.LiquidateIndividualBorrow(ctx, borrowID, "", false)
+		})
 	}
 	liquidationOffsetHolder.CurrentOffset = uint64(end)
 	// the borrow cursor lives under its own id; without it the holder is written under id 0,
